@@ -593,6 +593,8 @@ fn main() {
         for w in 1..=len + 2 {
             for rep in 0..3 {
                 if let Some(mut rng) = ctx.sweep_case() {
+                    // caller-supplied VecDeque buffers: half of the cases with a rotated (physically wrapped) ring buffer
+                    tvmon::rollreg::BUF_ROT.with(|r| r.set(if rng.chance(0.5) { 0 } else { 1 + rng.below(8) }));
                     let mp = match rep {
                         0 => None,
                         1 => Some(rng.range_usize(0, w)),
@@ -609,6 +611,8 @@ fn main() {
     let nr = if san { ctx.cbudget(1, 4) } else { ctx.cbudget(40, 800) };
     for k in 0..nr {
         if let Some(mut rng) = ctx.random_case() {
+            // caller-supplied VecDeque buffers: half of the cases with a rotated (physically wrapped) ring buffer
+            tvmon::rollreg::BUF_ROT.with(|r| r.set(if rng.chance(0.5) { 0 } else { 1 + rng.below(8) }));
             let len = rng.range_usize(0, if san { 7 } else { 50 });
             let w = rng.range_usize(1, len + 2);
             let mp = if rng.chance(0.25) { None } else { Some(rng.range_usize(0, w)) };
@@ -623,6 +627,8 @@ fn main() {
     for len in 0..=amax {
         for pat in NULL_PATTERNS {
             if let Some(mut rng) = ctx.sweep_case() {
+                // caller-supplied VecDeque buffers: half of the cases with a rotated (physically wrapped) ring buffer
+                tvmon::rollreg::BUF_ROT.with(|r| r.set(if rng.chance(0.5) { 0 } else { 1 + rng.below(8) }));
                 let class = *rng.pick(&ALL_CLASSES);
                 let x = series(&mut rng, class, pat, len);
                 accessor_suite(&mut ctx, &mut rng, &x);
@@ -635,6 +641,8 @@ fn main() {
     let nm = if san { ctx.cbudget(2, 6) } else { ctx.cbudget(200, 4000) };
     for _ in 0..nm {
         if let Some(mut rng) = ctx.random_case() {
+            // caller-supplied VecDeque buffers: half of the cases with a rotated (physically wrapped) ring buffer
+            tvmon::rollreg::BUF_ROT.with(|r| r.set(if rng.chance(0.5) { 0 } else { 1 + rng.below(8) }));
             let len = rng.range_usize(0, 40);
             let (x, _, _) = random_series(&mut rng, &ALL_CLASSES, len);
             map_matrix(&mut ctx, &mut rng, &x);
